@@ -732,7 +732,8 @@ def template_sites(d):
                     prev2 = t[i - 2] if i > 1 else None
                     nxt = t[i + 1] if i + 1 < len(t) else None
                     nxt2 = t[i + 2] if i + 2 < len(t) else None
-                    if is_p(nxt, ":") and is_p(nxt2, ":") and not (is_p(prev, ":") and is_p(prev2, ":")) and not is_p(prev, "#"):
+                    # (`.method::<T>()` is a method call, not a path)
+                    if is_p(nxt, ":") and is_p(nxt2, ":") and not (is_p(prev, ":") and is_p(prev2, ":")) and not is_p(prev, "#") and not is_p(prev, "."):
                         roots.append(x[1])
                 i = 0
                 while i < len(t):
